@@ -10,9 +10,9 @@ import (
 	"github.com/onheap/eval"
 )
 
-var contentChars = []string{"a", "b", "SP", "(", ")", ";", ",", "[", "]", "BS", "NL", "TAB", "NBSP", "IDSP", "CR", "E", "CTL", "U", "!", "-", "1",
+var contentChars = []string{"a", "b", "SP", "(", ")", ";", ",", "[", "]", "BS", "NL", "TAB", "NBSP", "IDSP", "CR", "Eacute", "CTL", "U", "!", "-", "1",
 	"%", ":", "+", "=", "<", "&", "|", "*", "/", ".", "_", "n", "t", "0"}
-var plainChars = []string{"a", "b", "SP", "(", ")", ";", ",", "[", "E", "1"}
+var plainChars = []string{"a", "b", "SP", "(", ")", ";", ",", "[", "Eacute", "1"}
 
 func randContent(r *rand.Rand, special bool) string {
 	n := r.Intn(5)
